@@ -218,7 +218,7 @@ def rule_bookkeeping(chk, prog):
                 "connRefs.end()" in norm(L.get("cond"), sal) or norm(L.get("cond")) == "(%s != fin)" % ini["name"]):
             bad = "the pin-freeing loop does not cover connRefs.begin()..end()"
         elif g.iteration_can_skip(L, [free[0]["id"]]) is not None and [
-                a for a in atoms(path_condition(fn, free[0], inline=False, early=True)) if "hasFixedRoute" not in a and a != norm(L.get("cond"))]:
+                a for a in atoms(path_condition(fn, free[0], inline=False, early=True)) if not re.search(r"fixed.?route", a, re.I) and a != norm(L.get("cond"))]:
             # (connectors with a fixed route are not routed again and keep their pins: FIXED-ROUTE-KEEPS-PINS)
             bad = "freeActivePins is skipped for connectors that are routed again"
         else:
@@ -736,13 +736,14 @@ def rule_fixed_route_keeps_pins(chk, prog):
     if not fr:
         raise AnalysisBroken("rerouteAndCallbackConnectors no longer frees active pins: rule out of date")
     gen = [c for c in calls(fn) if c.get("cname") == "Avoid::ConnRef::generatePath"]
-    skip = [c for c in gen if any("hasFixedRoute" in a for a in atoms(path_condition(fn, c, inline=False, early=True)))]
+    fixed_atom = lambda a: re.search(r"fixed.?route", a, re.I) is not None
+    skip = [c for c in gen if any(fixed_atom(a) for a in atoms(path_condition(fn, c, inline=False, early=True)))]
     if not skip:
         raise AnalysisBroken("the routing loops of rerouteAndCallbackConnectors no longer skip fixed-route connectors: rule out of date")
     for c in fr:
         r.count()
         pc = path_condition(fn, c, inline=False, early=True)
-        ats = [a for a in atoms(pc) if "hasFixedRoute" in a]
+        ats = [a for a in atoms(pc) if fixed_atom(a)]
         ok = bool(ats) and entails(pc, ("not", ("atom", ats[0])))
         (r.ok if ok else r.bad)("freeActivePins in rerouteAndCallbackConnectors", fn.loc(c), "" if ok else
                                 "the pins of fixed-route connectors are freed although those connectors are not routed again (condition: %s)" % show(pc))
